@@ -283,6 +283,7 @@ func c09History(c *fw.Ctx, r *rand.Rand, id string, parked bool) {
 		go func() { wg.Wait(); close(done) }()
 		if !waitOrTimeout(done, 60*time.Second) {
 			c.Violate(fw.Violation{Key: "blocked-operation", What: "an atom operation did not return within 60 s (normal: microseconds)", Input: c09OpsText(ops), Detail: fw.GoroutineDump()})
+			c.Runaway()
 			if release != nil {
 				release()
 			}
@@ -394,6 +395,7 @@ func c09Progress(c *fw.Ctx, id string, name string, setup string, threads []stri
 			dump := fw.GoroutineDump()
 			key := "blocked:" + name
 			c.Violate(fw.Violation{Key: key, What: "evaluation blocked forever (not even the 10 s context deadline ended it)", Detail: dump})
+			c.Runaway()
 			return
 		}
 		select {
@@ -406,6 +408,72 @@ func c09Progress(c *fw.Ctx, id string, name string, setup string, threads []stri
 			if m := check(env); m != "" {
 				c.Violate(fw.Violation{Key: "wrong-result:" + name, What: m})
 			}
+		}
+	})
+}
+
+// c09CancelledLoser: a swap! is parked between computing its result and installing it; another writer lands; the
+// parked evaluation's context ends (cancel, or future-cancel of the future it runs in); it is released. Whatever that
+// swap! returns, the atom must stay usable: every later operation from other evaluations returns.
+func c09CancelledLoser(c *fw.Ctx, id string, viaFuture bool) {
+	c.Case(id, fmt.Sprintf("cancelled swap! that lost the race (via future: %v)", viaFuture), func() {
+		env := hx.NewStdEnv()
+		if o := hx.EvalText(context.Background(), "(def a (atom 0))", env); o.Err != nil {
+			panic(o.Err)
+		}
+		hooks.jitter.Store(false)
+		defer hooks.jitter.Store(true)
+		arrived, release := hooks.park("atom.swap.mid", nil)
+		ctxA, cancelA := context.WithCancel(context.Background())
+		defer cancelA()
+		aDone := make(chan hx.Outcome, 1)
+		go func() {
+			if viaFuture {
+				aDone <- hx.EvalText(ctxA, "(do (def f (future (swap! a inc))) (try @f (catch e :cancelled)))", env)
+			} else {
+				aDone <- hx.EvalText(ctxA, "(swap! a inc)", env)
+			}
+		}()
+		if !waitOrTimeout(arrived, 20*time.Second) {
+			release()
+			c.Count("cancelled_loser_hook_not_reached", 1)
+			return
+		}
+		o := hx.EvalText(context.Background(), "(reset! a 100)", env)
+		if o.Err != nil || o.Panicked {
+			release()
+			c.Violate(fw.Violation{Key: "wrong-result:reset-while-swap-parked", What: fmt.Sprint(o.Err, o.PanicMsg)})
+			return
+		}
+		if viaFuture {
+			hx.EvalText(context.Background(), "(future-cancel f)", env)
+		} else {
+			cancelA()
+		}
+		release()
+		c.Count("cancelled_loser_scenarios", 1)
+		select {
+		case <-aDone:
+		case <-time.After(30 * time.Second):
+			c.Violate(fw.Violation{Key: "blocked:cancelled-swap-never-returned", What: "the cancelled swap! did not return within 30 s", Detail: fw.GoroutineDump()})
+			c.Runaway()
+			return
+		}
+		// the atom is still usable
+		var res []string
+		ok := fw.WithTimeout(30*time.Second, func() {
+			for _, src := range []string{"@a", "(str a)", "(reset! a 7)", "(swap! a inc)", "@a"} {
+				o := hx.EvalText(context.Background(), src, env)
+				res = append(res, fmt.Sprintf("%s => %v %v", src, o.Val, o.Err))
+			}
+		})
+		if !ok {
+			c.Violate(fw.Violation{Key: "blocked:atom-unusable-after-cancelled-swap", What: "after a swap! that lost the race to another writer and whose context had ended, operations on the atom never return: " + strings.Join(res, "; "), Detail: fw.GoroutineDump()})
+			c.Runaway()
+			return
+		}
+		if n, e := c09EvalInt(env, "@a"); e != "" || n != 8 {
+			c.Violate(fw.Violation{Key: "wrong-result:after-cancelled-swap", What: fmt.Sprintf("after (reset! a 7) (swap! a inc) the atom holds %d %s: %s", n, e, strings.Join(res, "; "))})
 		}
 	})
 }
@@ -431,6 +499,9 @@ func runC09(c *fw.Ctx) {
 	}
 	for i := 0; i < c.PerShard(c.Pick(480, 12000)); i++ {
 		c09History(c, r, fmt.Sprintf("parked-%d", i), true)
+	}
+	for i := 0; i < c.PerShard(c.Pick(64, 1600)); i++ {
+		c09CancelledLoser(c, fmt.Sprintf("cancelled-loser-%d", i), i%2 == 1)
 	}
 	// bounded progress and library code on atoms
 	rounds := c.Pick(30, 300)
@@ -582,6 +653,7 @@ func init() {
 		Finish: func(m *fw.Merged) {
 			m.Floor("histories", 100)
 			m.Floor("parked_scenarios_executed", 20)
+			m.Floor("cancelled_loser_scenarios", 16)
 			m.Floor("hook_hits.atom.swap.mid", 100)
 			if m.Counts["histories"] > 0 && m.Counts["histories_with_overlap"]*100 < m.Counts["histories"]*60 {
 				m.Inconclusive = append(m.Inconclusive, fmt.Sprintf("only %d of %d histories had overlapping operations", m.Counts["histories_with_overlap"], m.Counts["histories"]))
